@@ -37,7 +37,11 @@ SUITES = {
     'pfs384': {'child_dh': ('ecp384',)},
     'ike_dh_retry': {'dh_ike': ('ecp256', 'ecp384'), 'dh_ike_b': ('ecp384', 'ecp256')},
     'child_dh_retry': {'child_dh': ('ecp256', 'ecp384'), 'child_dh_b': ('ecp384', 'ecp256')},
+    'narrow_r': 'narrow_r',        # tunnel mode; the responder's policy narrows its own subnet (/16 -> /24) and the port range
+    'narrow_i': 'narrow_i',        # tunnel mode; the responder's policy narrows the initiator's subnet (/16 -> /28)
 }
+NARROW = {'narrow_r': (('10.1.0.0/16', '10.2.0.0/16'), ('10.2.1.0/24', '10.1.0.0/16')),
+          'narrow_i': (('10.1.0.0/16', '10.2.0.0/16'), ('10.2.0.0/16', '10.1.0.0/28'))}
 
 
 def mk_pair(suite):
@@ -52,6 +56,19 @@ def mk_pair(suite):
         p.configuration = cf
         p.a.configuration = cf.get_ike_configuration(world.IP1, world.IP2)
         p.b.configuration = cf.get_ike_configuration(world.IP2, world.IP1)
+    elif isinstance(kw, str) and kw in NARROW:
+        from ipaddress import ip_network
+        p = world.Pair(env_setup=symcrypto.reset, mode='tunnel')
+        (a_my, a_peer), (b_my, b_peer) = NARROW[kw]
+        p.confdict['alice']['protect'][0].update(my_subnet=a_my, peer_subnet=a_peer)
+        p.confdict['bob']['protect'][0].update(my_subnet=b_my, peer_subnet=b_peer)
+        cf = MODS['configuration'].Configuration([world.IP1, world.IP2], p.confdict)
+        p.configuration = cf
+        p.a.configuration = cf.get_ike_configuration(world.IP1, world.IP2)
+        p.b.configuration = cf.get_ike_configuration(world.IP2, world.IP1)
+        TS = MODS['message'].TrafficSelector
+        p.acquire_tss = lambda: (TS.from_network(ip_network('10.1.0.5/32'), 8765, TS.IpProtocol.TCP), TS.from_network(ip_network('10.2.1.7/32'), 23, TS.IpProtocol.TCP))
+        p.acquire_tss_rev = lambda: (TS.from_network(ip_network('10.2.1.7/32'), 23, TS.IpProtocol.TCP), TS.from_network(ip_network('10.1.0.5/32'), 8765, TS.IpProtocol.TCP))
     else:
         p = world.Pair(env_setup=symcrypto.reset, **kw)
     p.A.kernel = symcrypto.RecKernel()
@@ -222,6 +239,48 @@ def do_rekey_child(p, eng, checks, who, sa_a=None, sa_b=None, pfs=False, label=N
     checks.append((label or f'CHILD_SA rekey initiated by {who}', neg, None, None))
 
 
+def do_cross(p, eng, checks, kinds, sa_a=None, sa_b=None, pfs=False):
+    """two CREATE_CHILD_SA exchanges crossing on the wire: each endpoint sends its request before it receives the peer's"""
+    a, b = sa_a or p.a, sa_b or p.b
+    reqs, negs = {}, {}
+    for who, kind in zip('AB', kinds):
+        ini, IE, res, RE = ends(p, who, a, b)
+        negs[who] = Neg(p, IE, RE, ini, res)
+        if kind == 'new':
+            tsi, tsr = tss(p, who)
+            reqs[who] = IE.call(ini.process_acquire, tsi, tsr, 1 if who == 'A' else 2)
+        else:
+            reqs[who] = IE.call(ini.process_expire, ini.child_sas[0].inbound_spi, False)
+        assert reqs[who] is not None
+    ni = {'A': NONCES[-2], 'B': NONCES[-1]}
+
+    def newsa(ep, n0):
+        return [x for x in ep.kernel.log[n0:] if x['op'] == 'NEWSA']
+    # each side answers the peer's request while its own is outstanding ...
+    n0 = len(p.B.kernel.log)
+    res_a = p.B.call(b.process_message, reqs['A'])
+    negs['A'].new_r, nr_a = newsa(p.B, n0), NONCES[-1]
+    n0 = len(p.A.kernel.log)
+    res_b = p.A.call(a.process_message, reqs['B'])
+    negs['B'].new_r, nr_b = newsa(p.A, n0), NONCES[-1]
+    assert res_a is not None and res_b is not None
+    # ... and then receives the answer to its own
+    for who, res, nr in (('A', res_a, nr_a), ('B', res_b, nr_b)):
+        ini, IE, _, _ = ends(p, who, a, b)
+        neg = negs[who]
+        n0 = len(IE.kernel.log)
+        out = IE.call(ini.process_message, res)
+        neg.new_i = newsa(IE, n0)
+        neg.nonces = (ni[who], nr)
+        neg.pfs_secret = ini.dh.shared_secret if pfs else None
+        neg.child = ini.child_sas[-1] if ini.child_sas else None
+        neg.prf_id = int(ini.chosen_proposal.get_transform(MODS['message'].Transform.Type.PRF).id)
+        checks.append((f'crossing CREATE_CHILD_SA ({kinds[0]} by A x {kinds[1]} by B), exchange initiated by {who}', neg, None, None))
+        # a rekey is followed by the delete of the old CHILD_SA: deliver it
+        if out is not None:
+            pump(ini, IE, *ends(p, who, a, b)[2:], out)
+
+
 def do_rekey_ike(p, eng, checks, who, sa_a=None, sa_b=None):
     ini, IE, res, RE = ends(p, who, sa_a, sa_b)
     world.ENV.now = ini.rekey_ike_sa_at + 10
@@ -257,6 +316,8 @@ def h_scenario(suite, scenario):
                 do_new_child(p, eng, checks, who, sa_a, sa_b, pfs)
             elif kind == 'rekey':
                 do_rekey_child(p, eng, checks, who, sa_a, sa_b, pfs)
+            elif kind == 'cross':
+                do_cross(p, eng, checks, who.split('x'), sa_a, sa_b, pfs)
             elif kind == 'ike':
                 bad, sa_a, sa_b = do_rekey_ike(p, eng, checks, who, sa_a, sa_b)
                 if bad:
@@ -275,7 +336,7 @@ def h_scenario(suite, scenario):
 
 
 SCENARIOS = ('init', 'init+new@A', 'init+new@B', 'init+rekey@A', 'init+rekey@B', 'init+ike@A+new@A+new@B', 'init+ike@B+rekey@B+new@A',
-             'init+new@B+rekey@A', 'init+ike@A+ike@B+new@B')
+             'init+new@B+rekey@A', 'init+ike@A+ike@B+new@B', 'init+cross@newxnew', 'init+cross@rekeyxnew', 'init+new@B+cross@newxrekey')
 
 
 def build_instances(tier):
@@ -284,6 +345,10 @@ def build_instances(tier):
     for suite in SUITES:
         for sc in SCENARIOS:
             if tier == 'quick' and suite in ('pfs384', 'aes128_sha1') and sc not in ('init+new@B', 'init+rekey@A'):
+                continue
+            if 'cross' in sc and suite not in ('default', 'pfs', 'ah_tunnel'):
+                continue
+            if suite in NARROW and sc not in ('init', 'init+new@A', 'init+new@B', 'init+rekey@A', 'init+rekey@B', 'init+ike@A+new@A+new@B'):
                 continue
             if suite == 'ike_dh_retry' and 'ike@' in sc:
                 # a responder answers an IKE_SA rekey whose KE group it does not like with INVALID_KE_PAYLOAD *and* ends the old IKE_SA, so the
